@@ -172,6 +172,9 @@ class Fn:
             if self.is_std_move(e):
                 o = e['args'][0]
                 continue
+            if k == 'call' and e.get('ck') == 'ctor' and (e.get('copy') or e.get('move')) and len(e.get('args', [])) == 1:
+                o = e['args'][0]        # a by-value copy of the variable
+                continue
             return None
 
     def moved_ref(self, o):
